@@ -282,8 +282,12 @@ def run_init(case):
     else:
         ov = np.asarray(trial.calc_overlap([jnp.array(ups), jnp.array(dns)], wd_))
     events.append(judge("init/overlap-matches-reference", abs(ov[0] / np.linalg.norm(psi) / np.linalg.norm(phi) - ov_ref), 1e-10, key + "/overlap-reference"))
-    events.append(ev("init/overlap-bounded-away-from-zero", bool(abs(ov_ref) >= 1e-3), float(1e-3 / max(abs(ov_ref), 1e-300)), 1.0,
-                     key + "/overlap-nonzero/" + cls, overlap=float(abs(ov_ref)), cls=cls))
+    # rhf / uhf: the natural-orbital determinant the generator thresholds at 1e-3 IS the trial.  ghf / noci: the generator can only
+    # threshold the natural-orbital determinant, the overlap with the full trial must merely stay away from numerical zero
+    # (1e-6, the driver's own acceptance threshold)
+    thr = 1e-3 if kind in ("rhf", "uhf") else 1e-6
+    events.append(ev("init/overlap-bounded-away-from-zero", bool(abs(ov_ref) >= thr), float(thr / max(abs(ov_ref), 1e-300)), 1.0,
+                     key + "/overlap-nonzero/" + cls, overlap=float(abs(ov_ref)), cls=cls, threshold=thr))
     # variational energy of single-determinant trials
     if kind in ("rhf", "uhf", "ghf") and not case["restricted"]:
         h0, h1, chol = trials.rand_ham(rng, norb, 2, spin_dep=(kind != "rhf"))
